@@ -2629,3 +2629,227 @@ def gen_CoarsePy(repo):
     L.append("def simulateCgGlue : List String := %s" % lean_list([lean_str(g) for g in glue]))
     L.append("\nend Strengths.Gen")
     return "\n".join(L) + "\n"
+
+
+# =============================================================================================
+# lifecycle (C08-C11): RDScript / LibRDEngine / RDTrajectory / simulate_script skeletons (Python side)
+# =============================================================================================
+def _lf_norm(txt):
+    return re.sub(r"\s+", "", txt)
+
+
+def _lf_stmts_text(src, body):
+    """normalised source text of a statement list (docstrings dropped)"""
+    out = []
+    for n in body:
+        if isinstance(n, ast.Expr) and isinstance(n.value, ast.Constant) and isinstance(n.value.value, str):
+            continue
+        out.append(_lf_norm(ast.unparse(n)))      # (unparse: comments and layout do not matter)
+    return out
+
+
+def _lf_setter(src, cls, name):
+    for n in src.tree.body:
+        if isinstance(n, ast.ClassDef) and n.name == cls:
+            for f in n.body:
+                if isinstance(f, ast.FunctionDef) and f.name == name and any(
+                        isinstance(d, ast.Attribute) and d.attr == "setter" for d in f.decorator_list):
+                    return f
+    raise AnchorLost("%s:%s.%s setter" % (src.rel, cls, name))
+
+
+def _lf_getter(src, cls, name):
+    for n in src.tree.body:
+        if isinstance(n, ast.ClassDef) and n.name == cls:
+            for f in n.body:
+                if isinstance(f, ast.FunctionDef) and f.name == name and any(
+                        isinstance(d, ast.Name) and d.id == "property" for d in f.decorator_list):
+                    return f
+    raise AnchorLost("%s:%s.%s getter" % (src.rel, cls, name))
+
+
+def _lf_in_list(src, fn, var):
+    """the literal list of `if [not] var [not] in [...]`"""
+    for n in ast.walk(fn):
+        if isinstance(n, ast.Compare) and len(n.ops) == 1 and isinstance(n.ops[0], (ast.NotIn, ast.In)) \
+                and isinstance(n.left, ast.Name) and n.left.id == var and isinstance(n.comparators[0], (ast.List, ast.Tuple)):
+            return str_list(n.comparators[0])
+    raise AnchorLost("%s:%s membership test of %s" % (src.rel, fn.name, var))
+
+
+@group
+def gen_ScriptPy(repo):
+    sc = PySrc(repo, "src/strengths/rdscript.py")
+    L = ["namespace Strengths.Gen\n"]
+
+    def strs(l):
+        return lean_list([lean_str(x) for x in l])
+    pol = _lf_in_list(sc, _lf_setter(sc, "RDScript", "sampling_policy"), "sampling_policy")
+    L.append("/-- accepted values of `RDScript.sampling_policy` -/")
+    L.append("def scriptPolicies : List String := %s" % strs(pol))
+    modes = _lf_in_list(sc, _lf_setter(sc, "RDScript", "init_state_processing"), "init_state_processing")
+    L.append("def scriptModes : List String := %s" % strs(modes))
+    # t_max getter: if self._t_max=="default": return <expr>
+    g = _lf_getter(sc, "RDScript", "t_max")
+    dflt = None
+    for n in ast.walk(g):
+        if isinstance(n, ast.If) and _lf_norm(sc.seg(n.test)) == 'self._t_max=="default"':
+            for r in n.body:
+                if isinstance(r, ast.Return):
+                    dflt = _lf_norm(sc.seg(r.value))
+    if dflt is None:
+        raise AnchorLost("rdscript.py:RDScript.t_max default branch")
+    L.append("/-- value of `RDScript.t_max` when it was set to \"default\" -/")
+    L.append("def pyTMaxDefault : String := %s" % lean_str(dflt))
+    init = sc.func("__init__", cls="RDScript")
+    args = init.args
+    names = [a.arg for a in args.args][1:]
+    defaults = [None] * (len(names) - len(args.defaults)) + list(args.defaults)
+    ctor = [(nm, _lf_norm(sc.seg(d)) if d is not None else "") for nm, d in zip(names, defaults)]
+    L.append("def pyScriptCtor : List (String × String) := %s" % lean_list(["(%s, %s)" % (lean_str(a), lean_str(b)) for a, b in ctor]))
+    tm = dict(ctor).get("t_max")
+    if tm is None:
+        raise AnchorLost("rdscript.py:RDScript.__init__ t_max parameter")
+    L.append("def pyTMaxCtorDefault : String := %s" % lean_str(tm.strip('"')))
+    L.append("/-- the `rng_seed` setter, statement by statement -/")
+    L.append("def pySeedSetter : List String := %s" % strs(_lf_stmts_text(sc, _lf_setter(sc, "RDScript", "rng_seed").body)))
+    L.append("def pyScriptCopy : List String := %s" % strs(_lf_stmts_text(sc, sc.func("copy", cls="RDScript").body)))
+
+    le = PySrc(repo, "src/strengths/librdengine.py")
+
+    def self_attrs(fn):
+        out = []
+        for n in ast.walk(fn):
+            if isinstance(n, ast.Assign):
+                for t in n.targets:
+                    if isinstance(t, ast.Attribute) and isinstance(t.value, ast.Name) and t.value.id == "self" and t.attr not in out:
+                        out.append(t.attr)
+        return out
+    L.append("\n/-- attributes `LibRDEngine.__init__` / `setup` assign -/")
+    L.append("def wrapperInitAttrs : List String := %s" % strs(self_attrs(le.func("__init__", cls="LibRDEngine"))))
+    setup = le.func("setup", cls="LibRDEngine")
+    L.append("def wrapperSetupAttrs : List String := %s" % strs(self_attrs(setup)))
+    # position of the assignments relative to the first statement that can raise / call the library
+    first = _lf_stmts_text(le, setup.body)[:2]
+    L.append("def wrapperSetupHead : List String := %s" % strs(first))
+    for m in ("run", "iterate", "iterate_n", "get_progress", "sample", "is_complete", "_count_samples", "finalize"):
+        L.append("def wrapper_%s : List String := %s" % (m, strs(_lf_stmts_text(le, le.func(m, cls="LibRDEngine").body))))
+    gd = le.func("_get_data", cls="LibRDEngine")
+    L.append("def wrapperGetDataHead : List String := %s" % strs(_lf_stmts_text(le, gd.body)[:4]))
+
+    ro = PySrc(repo, "src/strengths/rdoutput.py")
+    L.append("\n/-- `RDTrajectory.__init__` -/")
+    L.append("def trajectoryInit : List String := %s" % strs(_lf_stmts_text(ro, ro.func("__init__", cls="RDTrajectory").body)))
+    L.append("def trajectoryNSamples : List String := %s" % strs(_lf_stmts_text(ro, ro.func("nsamples", cls="RDTrajectory").body)))
+
+    sm = PySrc(repo, "src/strengths/simulate.py")
+    ss = sm.func("simulate_script")
+    plain = None
+    for n in ss.body:
+        if isinstance(n, ast.If) and _lf_norm(sm.seg(n.test)) == "cgmapisNone":
+            plain = n.body
+    if plain is None:
+        raise AnchorLost("simulate.py:simulate_script plain branch")
+    calls = []
+    for n in plain:
+        for c in ast.walk(n):
+            if isinstance(c, ast.Call) and isinstance(c.func, ast.Attribute) and isinstance(c.func.value, ast.Name) and c.func.value.id == "engine":
+                calls.append(_lf_norm(sm.seg(c)))
+    L.append("\n/-- engine calls of `simulate_script` (plain branch), in source order -/")
+    L.append("def simulateEngineCalls : List String := %s" % strs(calls))
+    L.append("\nend Strengths.Gen")
+    return "\n".join(L) + "\n"
+
+
+# =============================================================================================
+# lifecycle (C08-C11), C++ side: what Init assigns, member inventory (G8), Poisson guards
+# =============================================================================================
+def _lf_class_body(text, cls):
+    m = re.search(r"class\s+%s\b[^{]*" % cls, text)
+    if not m:
+        raise AnchorLost("class " + cls)
+    return cpp_function_body(text[m.start():], r"class\s+%s\b[^{]*" % cls)
+
+
+def _lf_members(body):
+    """data members declared at depth 0 of a class body (lines without parentheses ending in ';')"""
+    out = []
+    depth = 0
+    for line in body.splitlines():
+        d0 = depth
+        depth += line.count("{") - line.count("}")
+        if d0 != 0 or "(" in line or ")" in line:
+            continue
+        m = re.match(r"^\s*(?:[\w:]+(?:<[^;]*>)?)\s+([\w\s,]+);\s*$", line)
+        if m:
+            out += [x.strip() for x in m.group(1).split(",") if x.strip()]
+    return out
+
+
+@group
+def gen_EngineLife(repo):
+    L = ["namespace Strengths.Gen\n"]
+
+    def strs(l):
+        return lean_list([lean_str(x) for x in l])
+    for tag, fname, cls, helpers in (
+            ("Grid", "SimulationAlgorithm3DBase.hpp", "SimulationAlgorithm3DBase", ["BuildMeshNeighbors", "Build_mesh_kr", "Build_mesh_kd"]),
+            ("Graph", "SimulationAlgorithmGraphBase.hpp", "SimulationAlgorithmGraphBase", ["SetNeighbors", "Build_mesh_kr", "Build_mesh_kd"])):
+        text = _cpp(repo, fname)
+        body = _lf_class_body(text, cls)
+        init = cpp_function_body(body, r"void\s+Init\s*\(")
+        assigns = [(a, _lf_norm(b)) for a, b in re.findall(r"this->(\w+)\s*=\s*([^;]+);", init)]
+        if not assigns:
+            raise AnchorLost(cls + " Init assignments")
+        sampler = [(a, b) for a, b in assigns if a in ("sample_pos", "sampling_done_this_iteration", "last_tsi_ratio", "t", "complete")]
+        L.append("/-- `%s::Init`: sampler members as assigned, in order -/" % cls)
+        L.append("def initSamplerAssigns%s : List (String × String) := %s" %
+                 (tag, lean_list(["(%s, %s)" % (lean_str(a), lean_str(b)) for a, b in sampler])))
+        stm = [_lf_norm(x) for x in init.split(";") if x.strip()]
+        L.append("def initLastCall%s : String := %s" % (tag, lean_str(stm[-1])))
+        L.append("def initRngAssign%s : String := %s" % (tag, lean_str(dict(assigns).get("rng", ""))))
+        assigned = [a for a, _ in assigns] + re.findall(r"this->(\w+)\s*\.\s*(?:clear|resize)\s*\(", init)
+        for h in helpers:
+            if not re.search(r"\b%s\s*\(" % h, init):
+                raise AnchorLost("%s::Init no longer calls %s" % (cls, h))
+            hb = cpp_function_body(body, r"void\s+%s\s*\(" % h)
+            assigned += re.findall(r"this->(\w+)\s*=", hb) + re.findall(r"\b(\w+)\s*\.\s*(?:resize|clear)\s*\(", hb)
+        seen = []
+        for a in assigned:
+            if a not in seen:
+                seen.append(a)
+        L.append("def members%s : List String := %s" % (tag, strs(_lf_members(body))))
+        L.append("def initAssigned%s : List String := %s" % (tag, strs(seen)))
+        pb = cpp_function_body(body, r"int\s+Poisson\s*\(")
+        L.append("def poissonBody%s : String := %s\n" % (tag, lean_str(_lf_norm(pb))))
+    for fname, cls in (("Euler3D.hpp", "Euler3D"), ("TauLeap3D.hpp", "TauLeap3D"), ("Gillespie3D.hpp", "Gillespie3D"),
+                       ("EulerGraph.hpp", "EulerGraph"), ("TauLeapGraph.hpp", "TauLeapGraph"), ("GillespieGraph.hpp", "GillespieGraph")):
+        body = _lf_class_body(_cpp(repo, fname), cls)
+        asi = cpp_function_body(body, r"void\s+AlgorithmSpecificInit\s*\(")
+        L.append("def members%s : List String := %s" % (cls, strs(_lf_members(body))))
+        L.append("def initAssigned%s : List String := %s" % (cls, strs(re.findall(r"this->(\w+)\s*\.\s*resize", asi) + re.findall(r"this->(\w+)\s*=", asi))))
+    eng = _cpp(repo, "engine.cpp")
+    guards = [_lf_norm(g) for g in re.findall(r"=\s*(\([^;]*poisson_distribution[^;]*);", eng)]
+    L.append("\n/-- every construction of `std::poisson_distribution` in engine.cpp, with its guard -/")
+    L.append("def initPoissonSites : List String := %s" % strs(guards))
+    L.append("def poissonMentions : Nat := %d" % sum(len(re.findall(r"poisson_distribution", _cpp(repo, f))) for f in (
+        "engine.cpp", "SimulationAlgorithm3DBase.hpp", "SimulationAlgorithmGraphBase.hpp", "TauLeap3D.hpp", "TauLeapGraph.hpp",
+        "Gillespie3D.hpp", "GillespieGraph.hpp", "Euler3D.hpp", "EulerGraph.hpp")))
+    # every statement of the engine sources that mentions the generator `rng` (seeded once in Init, advanced only by draws)
+    uses = []
+    for f in ("SimulationAlgorithm3DBase.hpp", "SimulationAlgorithmGraphBase.hpp", "Euler3D.hpp", "EulerGraph.hpp", "TauLeap3D.hpp",
+              "TauLeapGraph.hpp", "Gillespie3D.hpp", "GillespieGraph.hpp"):
+        for stmt in re.split(r"[;{}]", _cpp(repo, f)):
+            if re.search(r"\brng\b", stmt):
+                uses.append((f, _lf_norm(stmt)))
+    L.append("def rngMentions : List (String × String) := %s" % lean_list(["(%s, %s)" % (lean_str(a), lean_str(b)) for a, b in uses]))
+    for fn in ("engineexport_get_progress", "engineexport_get_nsamples", "engineexport_get_time"):
+        b = cpp_function_body(eng, r"%s\s*\([^)]*\)\s*" % fn)
+        L.append("def body_%s : String := %s" % (fn, lean_str(_lf_norm(b))))
+    # the `new …; global_algo_freed = false` statements of the two initialisers
+    news = [_lf_norm(x) for x in re.findall(r"\{\s*(global_\w+_algo\s*=\s*new\s+\w+\(\)\s*;\s*global_algo_freed\s*=\s*\w+\s*;)\s*\}", eng)]
+    L.append("def engineNewSites : List String := %s" % strs(news))
+    st = [_lf_norm(x) for x in re.findall(r"(global_space_type\s*=\s*\d+\s*;)", eng)]
+    L.append("def engineSpaceTypeAssigns : List String := %s" % strs(st))
+    L.append("\nend Strengths.Gen")
+    return "\n".join(L) + "\n"
